@@ -354,11 +354,11 @@ def corpus(tier='quick'):
         MibFile([module_v1('OLD-MIB', 4343)], name='smiv1'),
         MibFile([module_small('CCC-MIB', 13, 1)], eol='\r\n', trailer=[L('comment', '-- trailing comment after the last module'), L('blank', '')], name='crlf-trailer'),
         MibFile([module_v1('OLD-MIB', 4343), module_small('DDD-MIB', 14, 1, comment=False)], name='v1-then-v2'),
+        MibFile([module_small('FFF-MIB', 16, 2)], eol='\r', name='cr-only'),
     ]
     if tier == 'thorough':
         files += [
             MibFile([module_full('FULL-MIB', 4242), module_v1('OLD-MIB', 4343), module_small('EEE-MIB', 15, 3)], between=[L('blank', '')], name='three'),
-            MibFile([module_small('FFF-MIB', 16, 2)], eol='\r', name='cr-only'),
             MibFile([module_full('GGG-MIB', 77)], eol='\r\n', name='full-crlf'),
         ]
     return files
